@@ -30,8 +30,8 @@ RULE = (
     "states de-duplicated on the exact (time, dt, schedule cursor, recomputation count, "
     "about-to-hit flag) plus monitor state (last accepted time, scheduled times hit, "
     "consecutive failures); a violating or terminal state is not expanded; (D) full runs "
-    "of the real run_time_dependent_model with <= k non-default answers at every "
-    "placement. states = H-states + distinct final observations (accepted-time "
+    "of the real run_time_dependent_model with 0, 1, .. k non-default answers at every "
+    "placement (k shrinks with the run length, see bounds). states = H-states + distinct final observations (accepted-time "
     "sequences) of D-executions; transitions = H loop iterations + D executions (edges of "
     "the answer tree). An evaluation = one H transition or one D execution; non-trivial "
     "= the step failed, was shortened to a scheduled time, or landed on one; distinct by "
@@ -100,12 +100,13 @@ BOUNDS = {
     "start 1 x 2 intervals from {0.5,0.2}; dt_init = first interval x {1,1/2,1/4}; dt_min_max "
     "{(dt/8,4dt),(dt/2,dt),(dt,first interval),None}; relax {(0.5,2),(0.7,1.3)}; (recomp_factor,recomp_max) "
     "{(0.5,2),(0.25,1)}; constant_dt on compatible schedules; H: all answer sequences up to length 6 (or "
-    "closure); D: <= 2 deviations (<= 1 if the undisturbed run has > 10 solver calls), every placement, run to the end",
+    "closure); D: a run with n solver calls gets one more deviation (every later placement, every kind) while it has < 2 (n <= 10) or < 1 (n > 10) deviations; all runs to the end",
     "thorough": "schedules: start 0 x 1-2 intervals from {0.5,1,0.2,3}, start 0 x 3 intervals from {0.5,0.2,3}, "
     "start 0 x 4 intervals from {0.5,0.2}, start 1 x 1-2 intervals from {0.5,1,0.2,3}; dt_init = first interval x "
     "{1,1/2,1/4,1/5}; dt_min_max as quick; relax {(0.5,2),(0.7,1.3),(0.9,1.1)}; (recomp_factor,recomp_max) "
-    "{(0.5,2),(0.25,1),(0.5,3)}; constant_dt; H: all answer sequences up to length 7 (or closure); D: <= 3 "
-    "deviations if the undisturbed run has <= 5 solver calls, <= 2 if <= 10, else <= 1; every placement, run to the end",
+    "{(0.5,2),(0.25,1),(0.5,3)}; constant_dt; H: all answer sequences up to length 7 (or closure); D: a run with n solver "
+    "calls gets one more deviation (every later placement, every kind) while it has < 3 (n <= 5), < 2 (n <= 10) or < 1 "
+    "(n > 10) deviations; all runs to the end",
 }
 MIN_CLASSES = 8
 CHUNK = 4
@@ -325,9 +326,8 @@ def _deviations(cfg, cid, budget, out: Outcome):
         nf = sum(1 for a in answers if a == T.FAIL)
         out.ev(f"D{len(dev)}/{end}/" + ("fails" if nf else "nofail"),
                (cid, "D", dev) if dev else None)
-        if not dev:
-            # deviation budget depends on the length of the undisturbed run
-            k = next(kk for n, kk in budget if len(trace) <= n)
+        # deviation budget of a node depends on the length of its own run
+        k = next(kk for n, kk in budget if len(trace) <= n)
         if len(dev) < k:
             last = dev[-1][0] if dev else -1
             for p in range(last + 1, len(trace)):
